@@ -502,49 +502,51 @@ type GhostDecl struct {
 }
 
 type Contract struct {
-	Kind     string // func | interface | extern
-	Target   string // as written
-	Pkg      string // import path of the package the contract file belongs to ("" for /verif/assumed)
-	File     string
-	Params   []string // names for parameters (interface / extern contracts)
-	Results  []string
-	Requires []*Clause
-	Ensures  []*Clause
-	Defines  []*Clause // ghost-defining postconditions: assumed at call sites, not checked on the body
-	Modifies []Expr
-	ModSet   bool // a modifies clause was given ("modifies nothing" -> ModSet && len(Modifies)==0)
-	LoopInv  map[int][]*Clause
-	Lets     []LetDef
-	Witness  []LetDef
-	CallReqs []CallReq // caller-side requirements at matching call sites
-	Props    []string
-	Trusted  bool
-	Safety   bool
-	Inline   bool // callers inline the body instead of using the contract
-	Opaque   bool // callers see an uninterpreted (pure, deterministic) function of the arguments
-	ByRef    bool // opaque: pointer arguments are used by identity (their pointees are immutable)
-	Atomic   string
+	Kind       string // func | interface | extern
+	Target     string // as written
+	Pkg        string // import path of the package the contract file belongs to ("" for /verif/assumed)
+	File       string
+	Params     []string // names for parameters (interface / extern contracts)
+	Results    []string
+	Requires   []*Clause
+	Ensures    []*Clause
+	Defines    []*Clause // ghost-defining postconditions: assumed at call sites, not checked on the body
+	Modifies   []Expr
+	ModSet     bool // a modifies clause was given ("modifies nothing" -> ModSet && len(Modifies)==0)
+	LoopInv    map[int][]*Clause
+	Lets       []LetDef
+	Witness    []LetDef
+	CallReqs   []CallReq // caller-side requirements at matching call sites
+	SendReqs   []CallReq // requirements on values sent on a named channel (Pattern = channel variable name; "sent" is the value)
+	RecvInvs   []CallReq // what may be assumed about values received from a named channel ("v" is the value)
+	Props      []string
+	Trusted    bool
+	Safety     bool
+	Inline     bool // callers inline the body instead of using the contract
+	Opaque     bool // callers see an uninterpreted (pure, deterministic) function of the arguments
+	ByRef      bool // opaque: pointer arguments are used by identity (their pointees are immutable)
+	Atomic     string
 	Implements []string
-	Notes    []string
+	Notes      []string
 }
 
 type SpecFile struct {
-	Pkg       string
-	Contracts []*Contract
-	Ghosts    []*GhostDecl
-	Pures     []*PureDef
-	Guarded   []GuardDecl
-	Measures  []MeasureDecl
+	Pkg          string
+	Contracts    []*Contract
+	Ghosts       []*GhostDecl
+	Pures        []*PureDef
+	Guarded      []GuardDecl
+	Measures     []MeasureDecl
 	Abstractions map[string]map[string]*AbsDef // type name -> field -> definition
 }
 
 // AbsDef: how an implementation type realises one abstract (ghost) field of the interface contracts.
 type AbsDef struct {
-	Field string
-	Param string // bound index variable for map-like fields ("" for scalars)
+	Field  string
+	Param  string // bound index variable for map-like fields ("" for scalars)
 	Param2 string // second index for nested maps
-	Body  Expr
-	Src   string
+	Body   Expr
+	Src    string
 }
 
 type GuardDecl struct {
@@ -858,6 +860,36 @@ func ParseSpecFile(path, pkg string) (*SpecFile, error) {
 					label = fmt.Sprintf("c%d", len(cur.CallReqs))
 				}
 				cur.CallReqs = append(cur.CallReqs, CallReq{Pattern: head[0], Clause: &Clause{Label: label, E: e, Src: rest[i+3:], Props: props}})
+			case "sendreq", "recvinv":
+				// sendreq <chan> [label] {props} : <expr over sent>    /    recvinv <chan> [label] : <expr over v>
+				i := strings.Index(rest, " : ")
+				if i < 0 {
+					return nil, fail(ln, fmt.Errorf("expected: %s <chan> [label] : <expr>", kw))
+				}
+				head := strings.Fields(rest[:i])
+				if len(head) == 0 {
+					return nil, fail(ln, fmt.Errorf("%s: missing channel name", kw))
+				}
+				label, _ := splitLabel(strings.Join(head[1:], " "))
+				var props []string
+				if j := strings.Index(rest[:i], "{"); j >= 0 {
+					if k := strings.Index(rest[:i], "}"); k > j {
+						props = strings.Fields(rest[j+1 : k])
+					}
+				}
+				e, err := ParseExpr(rest[i+3:])
+				if err != nil {
+					return nil, fail(ln, err)
+				}
+				if label == "" {
+					label = head[0]
+				}
+				cr := CallReq{Pattern: head[0], Clause: &Clause{Label: label, E: e, Src: rest[i+3:], Props: props}}
+				if kw == "sendreq" {
+					cur.SendReqs = append(cur.SendReqs, cr)
+				} else {
+					cur.RecvInvs = append(cur.RecvInvs, cr)
+				}
 			case "witness":
 				i := strings.Index(rest, "=")
 				if i < 0 {
@@ -921,15 +953,15 @@ func splitTop(s string, sep byte) []string {
 
 // SpecDB: all loaded contracts
 type SpecDB struct {
-	Files     []*SpecFile
-	ByFunc    map[string]*Contract // "<pkgpath>.<RelString>"
-	ByIface   map[string]*Contract // "<pkgpath>.<Iface>.<Method>"
-	ByExtern  map[string]*Contract // "<pkgpath>.<name>" or "(<*pkg.T>).M" full ssa String()
-	ByField   map[string]*Contract // "<pkgpath>.<Type>.<Field>": contract of a function-valued struct field
-	Ghosts    map[string]*GhostDecl
-	Pures     map[string]*PureDef
-	Guarded   []GuardDeclQ
-	Measures  []MeasureDecl
+	Files        []*SpecFile
+	ByFunc       map[string]*Contract // "<pkgpath>.<RelString>"
+	ByIface      map[string]*Contract // "<pkgpath>.<Iface>.<Method>"
+	ByExtern     map[string]*Contract // "<pkgpath>.<name>" or "(<*pkg.T>).M" full ssa String()
+	ByField      map[string]*Contract // "<pkgpath>.<Type>.<Field>": contract of a function-valued struct field
+	Ghosts       map[string]*GhostDecl
+	Pures        map[string]*PureDef
+	Guarded      []GuardDeclQ
+	Measures     []MeasureDecl
 	Abstractions map[string]map[string]*AbsDef // "<pkgpath>.<Type>" -> field -> def
 }
 
